@@ -1,6 +1,7 @@
 package main
 
 import (
+	"encoding/json"
 	"fmt"
 	"math/rand"
 )
@@ -424,6 +425,42 @@ func gen(seed int64, n int, tier string) []interface{} {
 				in.Files = append(in.Files, genGoFile(r, i, big))
 			} else {
 				in.Files = append(in.Files, genPyFile(r, i, big, known))
+			}
+		}
+		// a class declared inside another class of the module, between that class's methods
+		if in.Lang == "py" && r.Intn(3) == 0 {
+			f := &in.Files[0]
+			var cls []int
+			for i, it := range f.Items {
+				if it.K == "class" {
+					cls = append(cls, i)
+				}
+			}
+			if len(cls) >= 2 {
+				outer, innerI := f.Items[cls[0]], cls[1+r.Intn(len(cls)-1)]
+				f.Items[innerI].In = outer.Name
+				f.Items[innerI].At = r.Intn(len(outer.Methods) + 1)
+			}
+		}
+		// two modules of the directory that each declare a class of the same name
+		if in.Lang == "py" && nf > 1 && r.Intn(2) == 0 {
+			for _, it := range in.Files[0].Items {
+				if it.K != "class" {
+					continue
+				}
+				clash := false
+				for _, jt := range in.Files[1].Items {
+					if jt.Name == it.Name {
+						clash = true
+					}
+				}
+				if !clash {
+					b, _ := json.Marshal(it)
+					var cp PyItem
+					json.Unmarshal(b, &cp)
+					in.Files[1].Items = append(in.Files[1].Items, cp)
+				}
+				break
 			}
 		}
 		if in.Lang == "go" { // one package per directory
